@@ -1,9 +1,162 @@
 import Pixman.Spec.PointSet
-/-! C06 — property theorems. -/
+import Pixman.Spec.Canon
+import Pixman.Lemmas.RegionCanon
+/-! C06 — property theorems: the canonical banded form is unique for a point set, and
+    `pixman_region_equal` decides set equality on canonical regions. -/
 namespace Pixman.Props.C06
 open Pixman.Region
 
 theorem init_not_mem (x y : Int) : ¬ init.Mem x y := by
   simp [Region.Mem, MemL, init, Region.rects]
+
+/-! ### a decidable checker of the canonical form (non-vacuity of everything below) -/
+
+/-- `canonListB` decides `CanonList`. -/
+theorem canonListB_iff (l : List Box) : canonListB l = true ↔ CanonList l :=
+  Pixman.Region.canonListB_iff
+
+/-- an L-shaped region with a hole row: two spans, then one span, then (after a gap) one span -/
+def exL : List Box := [⟨0, 0, 2, 1⟩, ⟨3, 0, 5, 1⟩, ⟨0, 1, 2, 3⟩, ⟨0, 5, 2, 6⟩]
+
+example : CanonList exL := by decide
+example : CanonList [] := by decide
+-- not canonical: touching spans in a band
+example : ¬ CanonList [⟨0, 0, 2, 1⟩, ⟨2, 0, 5, 1⟩] := by decide
+-- not canonical: touching bands with identical spans (should have been coalesced)
+example : ¬ CanonList [⟨0, 0, 2, 1⟩, ⟨0, 1, 2, 3⟩] := by decide
+-- not canonical: bands out of order, empty box, different y2 in a band
+example : ¬ CanonList [⟨0, 1, 2, 3⟩, ⟨0, 0, 2, 1⟩] := by decide
+example : ¬ CanonList [⟨0, 0, 0, 1⟩] := by decide
+example : ¬ CanonList [⟨0, 0, 2, 1⟩, ⟨3, 0, 5, 2⟩] := by decide
+
+def exR : Region := ⟨⟨0, 0, 5, 6⟩, .heap exL⟩
+def exS : Region := ⟨⟨-3, 7, 5, 9⟩, .single⟩
+def exE : Region := ⟨⟨4, 4, 9, 9⟩, .emptyStatic⟩   -- empty, with leftover extents
+
+example : Canon exR := by decide
+example : Canon exS := by decide
+example : Canon exE := by decide
+example : ¬ Canon ⟨⟨0, 0, 5, 7⟩, .heap exL⟩ := by decide   -- extents not tight
+example : ¬ Canon ⟨⟨0, 0, 2, 1⟩, .heap [⟨0, 0, 2, 1⟩]⟩ := by decide   -- one rect stored in a list
+
+/-! ### constructors yield canonical objects -/
+
+theorem canon_init : Canon init := trivial
+
+theorem canon_clear : Canon clear := trivial
+
+/-- `init_rect` / `init_with_extents`: a good rectangle is stored inline, anything else
+    gives the empty region. -/
+theorem canon_initWithExtents (e : Box) : Canon (initWithExtents e) := by
+  unfold initWithExtents
+  cases hg : goodRect e
+  · exact trivial
+  · exact hg
+
+theorem canon_initRect (c : Cfg) (x y : Int) (w h : Nat) : Canon (initRect c x y w h) := by
+  unfold initRect
+  simp only
+  split
+  · exact trivial
+  · next hg =>
+    simp only [Bool.not_eq_true', Bool.not_eq_false] at hg
+    exact hg
+
+theorem canon_copy {dst src : Region} (h : Canon src) : Canon (copy dst src) := h
+
+/-- `reset` (the C code asserts `GOOD_RECT (box)`) -/
+theorem canon_reset {b : Box} (h : goodRect b = true) : Canon (reset b) := h
+
+/-- the broken region is not canonical -/
+theorem not_canon_brk : ¬ Canon brk := fun h => h
+
+example : initRect c16 3 4 5 6 = ⟨⟨3, 4, 8, 10⟩, .single⟩ ∧ initRect c16 32767 0 5 6 = init := by
+  decide
+
+/-! ### uniqueness -/
+
+/-- A separated span list is determined by the set of x it covers. -/
+theorem spans_unique {l l' : List Box} (h : SpansSep l) (h' : SpansSep l')
+    (hx : ∀ x, InSpans l x ↔ InSpans l' x) : SameSpans l l' :=
+  Pixman.Region.spans_unique h h' hx
+
+/-- C06 (2), lists: a point set has at most one canonical rectangle list. -/
+theorem canonList_unique {a b : List Box} (ha : CanonList a) (hb : CanonList b)
+    (h : ∀ x y, MemL a x y ↔ MemL b x y) : a = b :=
+  Pixman.Region.canonList_unique ha hb h
+
+example : CanonList exL ∧ ∃ x y, MemL exL x y := ⟨by decide, 4, 0, by decide⟩
+
+/-- C06 (2), regions: canonical regions denoting the same point set hold the same rectangles. -/
+theorem canon_rects_unique {a b : Region} (ha : Canon a) (hb : Canon b)
+    (h : ∀ x y, a.Mem x y ↔ b.Mem x y) : a.rects = b.rects :=
+  Pixman.Region.canonList_unique (canon_canonList ha) (canon_canonList hb) h
+
+/-- … and, unless they are empty, the same extents. -/
+theorem canon_extents_unique {a b : Region} (ha : Canon a) (hb : Canon b)
+    (h : ∀ x y, a.Mem x y ↔ b.Mem x y) (hne : ∃ x y, a.Mem x y) : a.extents = b.extents := by
+  apply canon_extents_eq ha hb (canon_rects_unique ha hb h)
+  intro hn
+  obtain ⟨x, y, b, hb, _⟩ := hne
+  rw [hn] at hb
+  cases hb
+
+/-- … hence they are the same object up to the representation of emptiness. -/
+theorem canon_unique {a b : Region} (ha : Canon a) (hb : Canon b)
+    (h : ∀ x y, a.Mem x y ↔ b.Mem x y) (hne : ∃ x y, a.Mem x y) : a = b := by
+  have hr := canon_rects_unique ha hb h
+  have he := canon_extents_unique ha hb h hne
+  have hn : a.rects ≠ [] := by
+    intro hn
+    obtain ⟨x, y, b, hb, _⟩ := hne
+    rw [hn] at hb
+    cases hb
+  obtain ⟨ea, da⟩ := a
+  obtain ⟨eb, db⟩ := b
+  simp only at he
+  subst he
+  cases da <;> cases db <;> simp only [Canon, Region.rects] at ha hb hr hn ⊢
+  case single.heap => rw [← hr] at hb; simp at hb
+  case heap.single => rw [hr] at ha; simp at ha
+  case heap.heap => rw [hr]
+  all_goals first | rfl | exact absurd rfl hn | exact absurd hr hn | exact absurd hr.symm hn | cases hr
+
+example : Canon exR ∧ ∃ x y, exR.Mem x y := ⟨by decide, 4, 0, by decide⟩
+
+/-! ### `pixman_region_equal` -/
+
+/-- C06 (3): on canonical regions `equal` is equality of point sets.  All empty regions are
+    equal, whatever their extents (`exE` above against `init`). -/
+theorem equal_iff_mem {a b : Region} (ha : Canon a) (hb : Canon b) :
+    equal a b = true ↔ ∀ x y, a.Mem x y ↔ b.Mem x y := by
+  have na := canon_nil_iff ha
+  have nb := canon_nil_iff hb
+  constructor
+  · intro h x y
+    unfold equal at h
+    split at h
+    · next hn =>
+      simp only [Bool.and_eq_true] at hn
+      simp only [Region.Mem, na.1 hn.1, nb.1 hn.2]
+    · simp only [bne_iff_ne, ne_eq, ite_not, Bool.if_false_right, Bool.and_eq_true,
+        decide_eq_true_eq] at h
+      simp only [Region.Mem, boxesEq_iff.1 h.2.2.2.2.2]
+  · intro h
+    have hr := canon_rects_unique ha hb h
+    unfold equal
+    split
+    · rfl
+    · next hn =>
+      have hne : a.rects ≠ [] := by
+        intro e
+        apply hn
+        simp only [Bool.and_eq_true]
+        exact ⟨na.2 e, nb.2 (hr ▸ e)⟩
+      have he := canon_extents_eq ha hb hr hne
+      simp only [he, Region.numRects, hr, bne_self_eq_false, Bool.false_eq_true, if_false,
+        boxesEq_iff]
+
+example : equal exE init = true := by decide
+example : equal exR exR = true ∧ equal exR exS = false := by decide
 
 end Pixman.Props.C06
